@@ -58,7 +58,8 @@ def coerce_int(maybe_int: _ScalarValue) -> int:
     Spec compliant int conversion.
     """
     if isinstance(maybe_int, int):
-        numeric = maybe_int
+        # (booleans are integers too: True is 1, not `true`)
+        numeric = int(maybe_int)
     elif isinstance(maybe_int, float):
         try:
             numeric = int(maybe_int)
